@@ -998,6 +998,8 @@ def relate(from_instance, to_instance, rel_id, phrase=''):
         raise RelateException(from_instance, to_instance, rel_id, phrase)
 
     if not ass.target_link.connect(inst2, inst1):
+        # undo the first half, a rejected relate must not leave a one-way link
+        ass.source_link.disconnect(inst1, inst2)
         raise RelateException(from_instance, to_instance, rel_id, phrase)
     
     return True
